@@ -20,7 +20,7 @@ PROPS["C12"] = {
          "quick": ["c12::c12_sliceref_u8_4", "c12::c12_sliceref_u64_4", "c12::c12_sliceref_zst_4", "c12::c12_zst_slices_of_any_length", "c12::c12_sliceref_t3_4",
                    "c12::c12_slices_t3_any_address",
                    "c12::c12_slicemut_u8_4", "c12::c12_slicemut_u64_4", "c12::c12_slicemut_zst_4", "c12::c12_slicemut_t3_4",
-                   "c12::c12_utf8_decision_4", "c12::c12_str_rt_4",
+                   "c12::c12_utf8_decision_4", "c12::c12_utf8_decision_after_rewrite_3", "c12::c12_str_rt_4",
                    "c12::c12_coption_value", "c12::c12_coption_moves", "c12::c12_cresult_value", "c12::c12_cresult_moves",
                    "c12::c12_ctup", "c12::c12_negative_twin"],
          "thorough_adds": ["c12::c12_sliceref_u8_6", "c12::c12_sliceref_u64_6", "c12::c12_sliceref_t3_6",
@@ -273,8 +273,12 @@ PROPS["C16"] = {
         {"id": "views",
          "quick": ["c16::c16_cbox_view", "c16::c16_carc_view", "c16::c16_carc_view_overaligned_opaque_clone", "c16::c16_slices_u8", "c16::c16_slices_u64", "c16::c16_slices_t3",
                    "c16::c16_cvec_u8_exact", "c16::c16_cvec_u64_exact", "c16::c16_cvec_u64_spare", "c16::c16_cvec_t3_empty",
-                   "c16::c16_callback_view", "c16::c16_citerator_view", "c16::c16_citerator_view_droppable_items", "c16::c16_views_made_by_c", "c16::c16_tags", "c16::c16_negative_twin"],
+                   "c16::c16_callback_view", "c16::c16_citerator_view", "c16::c16_citerator_view_droppable_items", "c16::c16_views_made_by_c", "c16::c16_cslicebox_view_released_by_c", "c16::c16_tags", "c16::c16_negative_twin"],
          "cbmc_args": LEAK, "timeout": 1200},
+        # the published object container: instance, context, temporary storage (generated code, hence the gen crate)
+        {"id": "object_container", "crate": "gen", "quick": ["c04::c04_container_order_with_context_and_ret_tmp",
+                                                             "c04::c04_object_with_context_words", "c04::c04_object_words_and_sizes"],
+         "timeout": 600},
         # the same views with the compiler told to SHUFFLE every layout it is free to choose (-Zrandomize-layout, seed from
         # VERIF_SEED): a published type that lost (or only conditionally has) its repr(C)/repr(transparent) coincides with its
         # C declaration in an ordinary build and stops doing so here
@@ -322,7 +326,10 @@ PROPS["C05"] = {
         {"id": "foreign_vtable", "crate": "gen", "quick": ["c07::c07_caller_glue_holds_context_across_consuming_call",
                                                           # the context (the loaded module) outlives the instance's destructor
                                                           "c07::c07_instance_destroyed_before_context_released",
-                                                          "c07::c07_group_instance_destroyed_before_context_released"],
+                                                          "c07::c07_group_instance_destroyed_before_context_released",
+                                                          # a consumed box gives its storage back (into_inner), an empty slice
+                                                          # argument keeps its (non-null) address for a peer built with checks on
+                                                          "c06::c06_cbox_paths", "c02::c02_args_slices"],
          "cbmc_args": LEAK, "timeout": 900},
         # two modules that each expand the same group definition must agree on its layout: the order of the vtable words
         # is a function of the trait names alone (4 mandatory + 2 optional traits; an order that depended on the expanding
